@@ -158,10 +158,10 @@ const Prelude = `
 (declare-fun str_cat (Str Str) Str)
 (declare-const str_empty Str)
 (assert (= (str_len str_empty) 0))
-(assert (forall ((s Str)) (! (>= (str_len s) 0) :pattern ((str_len s)))))
+(assert (forall ((s Str)) (! (and (>= (str_len s) 0) (<= (str_len s) 72057594037927936)) :pattern ((str_len s)))))
 (declare-fun saddr (Slice Int) Ref)
 (assert (forall ((s Slice) (i Int)) (! (= (saddr s i) (elem (sarr s) (+ (soff s) i))) :pattern ((saddr s i)))))
-(define-fun wfslice ((s Slice)) Bool (and (<= 0 (soff s)) (<= 0 (slen s)) (<= (slen s) (scap s)) (=> (= (sarr s) nil) (= (scap s) 0))))
+(define-fun wfslice ((s Slice)) Bool (and (<= 0 (soff s)) (<= 0 (slen s)) (<= (slen s) (scap s)) (<= (scap s) 72057594037927936) (<= (soff s) 72057594037927936) (=> (= (sarr s) nil) (= (scap s) 0))))
 (define-fun trunc_int ((x Real)) Int (ite (>= x 0.0) (to_int x) (- (to_int (- x)))))
 (define-fun absr ((x Real)) Real (ite (>= x 0.0) x (- x)))
 `
